@@ -157,7 +157,9 @@ func c18Selects(thorough bool) []string {
 			out = append(out, fmt.Sprintf("SELECT * FROM %s ORDER BY %s", f, k))
 			out = append(out, fmt.Sprintf("SELECT a, c FROM %s ORDER BY %s LIMIT 1", f, k))
 		}
-		for _, lo := range []string{"LIMIT 0", "LIMIT 9223372036854775807", "OFFSET 9223372036854775807", "LIMIT 2 OFFSET 100", "OFFSET 0 LIMIT 0", "LIMIT 1 LIMIT 2", "OFFSET 1 OFFSET 2"} {
+		for _, lo := range []string{"LIMIT 0", "LIMIT 9223372036854775807", "OFFSET 9223372036854775807", "LIMIT 2 OFFSET 100", "OFFSET 0 LIMIT 0", "LIMIT 1 LIMIT 2", "OFFSET 1 OFFSET 2",
+			"LIMIT 9223372036854775807 OFFSET 1", "LIMIT 9223372036854775807 OFFSET 9223372036854775807", "OFFSET 9223372036854775807 LIMIT 1", "LIMIT 1 OFFSET 9223372036854775807",
+			"LIMIT 4611686018427387904 OFFSET 4611686018427387904", "LIMIT 2147483648 OFFSET 2147483648"} {
 			out = append(out, fmt.Sprintf("SELECT * FROM %s %s", f, lo))
 		}
 	}
